@@ -61,7 +61,8 @@ class State:
 
 
 NO_INLINE = {'gambit.cli.common.get_sequence_files', 'gambit.cli.common.kspec_from_params', 'gambit.cli.common.warn_duplicate_file_ids',
-             'gambit.cli.common.check_params_group', 'gambit.cli.common.print_table', 'gambit.cli.common.get_revision_info'}
+             'gambit.cli.common.check_params_group', 'gambit.cli.common.print_table', 'gambit.cli.common.get_revision_info',
+             'gambit.cli.common.CLIContext.get_database'}     # summarised: the database object of the CLI context
 RELEVANT_WORDS = ('kmerspec', 'load_signatures', 'calc_file_signatures', 'jaccarddist', 'query(', 'query_parse')
 
 
@@ -77,26 +78,43 @@ class Interp:
         self.callsites = []   # text of the helper calls being inlined (innermost last)
         self.inlined = set()
         self.loops = []       # continue / break collectors of the loops being interpreted (innermost last)
+        self.receivers = {}   # id(call) -> abstract value of the receiver of an inlined method call
+        self.calcs = []       # (call, parameter entity, state) of every calc_file_signatures evaluation
 
     # ------------------------------------------------------------------ helper inlining
-    def inlinable(self, call):
-        """FuncInfo of a helper defined in gambit.cli.* (or nested in the command) that handles signatures / parameters."""
+    def inlinable(self, call, st=None):
+        """FuncInfo of a helper defined in gambit.cli.* (function, method of the CLI context object, or def nested in the command) that
+        handles signatures / parameters: its text mentions them, or a signature source / parameter value flows into it at this call."""
         target = None
         r = self.m.resolve_call(self.fi, call)
-        if r in self.m.functions and r.startswith('gambit.cli.') and r not in NO_INLINE and self.m.functions[r].cls is None:
+        recv = None
+        if isinstance(call.func, ast.Attribute) and st is not None and not (r in self.m.functions and self.m.functions[r].cls is None):
+            # method call: followed when the receiver is the CLI context object (its class is looked up through the MRO)
+            rv = self.ev(call.func.value, st)
+            if rv.kind == 'ctxobj':
+                mi = self.m.find_method('gambit.cli.common.CLIContext', call.func.attr)
+                mi = self.m.functions.get(mi) if isinstance(mi, str) else mi
+                if mi is not None and mi.qualname not in NO_INLINE and not any(isinstance(d, ast.Name) and d.id == 'property' for d in mi.decorators):
+                    target, recv = mi, rv
+        if target is None and r in self.m.functions and r.startswith('gambit.cli.') and r not in NO_INLINE and self.m.functions[r].cls is None:
             target = self.m.functions[r]
-        elif isinstance(call.func, ast.Name):
+        elif target is None and isinstance(call.func, ast.Name):
             for n in ast.walk(self.fi.node):
                 if isinstance(n, ast.FunctionDef) and n is not self.fi.node and n.name == call.func.id:
                     from ..model import FuncInfo
                     target = FuncInfo(f'{self.fi.qualname}.<locals>.{n.name}', n, self.fi.module)
-        if target is None or len(self.frames) >= 3:
-            return None
-        src = ast.unparse(target.node)
-        if not any(w in src for w in RELEVANT_WORDS):
+        if target is None or len(self.frames) >= 4:
             return None
         if any(isinstance(a, ast.Starred) for a in call.args) or any(k.arg is None for k in call.keywords):
             return None
+        src = ast.unparse(target.node)
+        relevant = any(w in src for w in RELEVANT_WORDS) or recv is not None
+        if not relevant and st is not None:
+            vals = [self.ev(a, st) for a in call.args] + [self.ev(k.value, st) for k in call.keywords]
+            relevant = any(v.kind in ('sig', 'kspec', 'kspec?', 'db', 'ctxobj') or (v.kind == 'seq' and any(x.kind in ('sig', 'kspec', 'kspec?') for x in v.ent)) for v in vals)
+        if not relevant:
+            return None
+        self.receivers[id(call)] = recv
         return target
 
     def inline(self, call, target, st):
@@ -105,6 +123,10 @@ class Interp:
         names = [x.arg for x in a.posonlyargs + a.args]
         bound = {}
         alias = {}
+        recv = self.receivers.get(id(call))
+        if recv is not None and names:
+            bound[names[0]] = recv          # the method's `self`
+            names = names[1:]
         for i, arg in enumerate(call.args):
             if i < len(names):
                 bound[names[i]] = self.ev(arg, st)
@@ -114,7 +136,7 @@ class Interp:
             bound[k.arg] = self.ev(k.value, st)
             if isinstance(k.value, ast.Name):
                 alias[k.arg] = k.value.id
-        defaults = dict(zip(reversed(names), reversed(a.defaults)))
+        defaults = dict(zip(reversed([x.arg for x in a.posonlyargs + a.args]), reversed(a.defaults)))
         for n in names:
             if n not in bound:
                 bound[n] = self.ev(defaults[n], st) if n in defaults else UNKNOWN
@@ -175,10 +197,14 @@ class Interp:
                 return OTHER
             if e.attr == 'signatures' and (base.kind in ('db', 'ctxobj')):
                 return Val('sig', 'DB')
+            if e.attr == 'obj' and base.kind == 'ctx':
+                return Val('ctxobj')
             if e.attr == 'obj' and u(e.value) == 'ctx':
                 return Val('ctxobj')
             return OTHER
         if isinstance(e, ast.Call):
+            if ('call', id(e)) in st.env:
+                return st.env[('call', id(e))]
             f = self.resolve(e)
             if f.endswith('load_signatures'):
                 tag = u(e.args[0]) if e.args else '?'
@@ -188,6 +214,10 @@ class Interp:
                 return Val('sig', f'load:{tag}')
             if f.endswith('get_database'):
                 return Val('db', 'DB')
+            if f == 'gambit.db.refdb.ReferenceDatabase' or f.endswith('.ReferenceDatabase'):
+                sg = get_arg(e, 1, 'signatures')
+                sv = self.ev(sg, st) if isinstance(sg, ast.AST) else UNKNOWN
+                return Val('db', 'DB') if sv.kind == 'sig' and sv.ent == 'DB' else OTHER
             if f.endswith('kspec_from_params'):
                 d = get_arg(e, 2, 'default')
                 if d not in (None, Ellipsis) and is_const(d, True):
@@ -197,6 +227,7 @@ class Interp:
                 k = self.ev(e.args[0], st) if e.args else UNKNOWN
                 if k.kind != 'kspec':
                     raise Undecided(f'{self.fi.qualname}: calc_file_signatures called with {k} at line {e.lineno}')
+                self.calcs.append((e, k.ent, st))
                 return Val('sig', k.ent)
             if f.endswith('AnnotatedSignatures') and e.args:
                 return self.ev(e.args[0], st)
@@ -225,7 +256,7 @@ class Interp:
                 self.ev(k.value, st)
             return OTHER
         if isinstance(e, ast.IfExp):
-            return OTHER
+            return st.env.get(('call', id(e)), OTHER)
         if isinstance(e, (ast.Tuple, ast.List)):
             vals = [self.ev(x.value if isinstance(x, ast.Starred) else x, st) for x in e.elts]
             if any(isinstance(x, ast.Starred) for x in e.elts):
@@ -233,9 +264,56 @@ class Interp:
             return Val('seq', tuple(vals))      # a literal sequence: its elements are known one by one
         return OTHER
 
+    def hoist(self, expr, st, top=True):
+        """[state]: what an expression evaluates unconditionally is interpreted first, in evaluation order, and its value remembered per state
+        (`ev` then finds it): helper calls are followed, a conditional expression is the two-armed `if` it abbreviates (one state per arm).
+        Operands of and/or, lambdas and comprehension bodies are left to `ev`."""
+        if expr is None:
+            return [st]
+        found = []
+
+        def walk(n, is_top):
+            if isinstance(n, (ast.Lambda, ast.BoolOp, ast.ListComp, ast.GeneratorExp, ast.SetComp, ast.DictComp)):
+                return
+            if isinstance(n, ast.IfExp):
+                if not is_top:
+                    found.append(n)
+                return
+            for c in ast.iter_child_nodes(n):
+                walk(c, False)
+            if isinstance(n, ast.Call) and not is_top:
+                found.append(n)
+        walk(expr, top)
+        states = [st]
+        for node in found:
+            nxt = []
+            for s0 in states:
+                if isinstance(node, ast.IfExp):
+                    for (tv, s1) in self.cond(node.test, s0):
+                        arm = node.body if tv else node.orelse
+                        for s2 in self.hoist(arm, s1, top=False):
+                            s2 = s2.copy()
+                            s2.env[('call', id(node))] = self.ev(arm, s2)
+                            nxt.append(s2)
+                    continue
+                target = self.inlinable(node, s0)
+                if target is None:
+                    nxt.append(s0)
+                    continue
+                for val, s1 in self.inline(node, target, s0):
+                    s1 = s1.copy()
+                    s1.env[('call', id(node))] = val
+                    nxt.append(s1)
+            states = nxt
+            if len(states) > MAX_PATHS:
+                raise Undecided(f'{self.fi.qualname}: more than {MAX_PATHS} abstract paths')
+        return states
+
     def evs(self, e, st):
         """[(value, state)]: like ev, but a conditional expression is the two-armed `if` it abbreviates (one state per arm)."""
         if isinstance(e, ast.IfExp):
+            if ('call', id(e)) in st.env:
+                return [(st.env[('call', id(e))], st)]        # already decided for this state
             out = []
             for (tv, s2) in self.cond(e.test, st):
                 out += self.evs(e.body if tv else e.orelse, s2)
@@ -314,6 +392,17 @@ class Interp:
                     if ne.mismatch is None:
                         ne.mismatch = f'{u(l)} != {u(r)}'
                     return [(isinstance(op, ast.Eq), eq), (isinstance(op, ast.NotEq), ne)]
+                if {lv.kind, rv.kind} == {'kspec', 'none'}:
+                    return [(isinstance(op, ast.NotEq), st)]        # None equals no KmerSpec
+                for side, v in ((l, lv), (r, rv)):
+                    if v.kind == 'kspec?' and isinstance(side, ast.Name) and 'kspec' in (lv.kind, rv.kind):
+                        # an optional parameter value compared without a None test: None equals no KmerSpec; otherwise it is the value
+                        a = st.copy(f'{side.id} is None')
+                        a.env[side.id] = NONE
+                        b = st.copy(f'{side.id} is not None')
+                        b.env[side.id] = Val('kspec', v.ent)
+                        b.explicit = v.ent
+                        return [(isinstance(op, ast.NotEq), a)] + self.cond(t, b)
                 if 'kspec' in (lv.kind, rv.kind) or 'kspec?' in (lv.kind, rv.kind):
                     raise Undecided(f'{self.fi.qualname}: comparison of k-mer parameters outside the vocabulary: {u(t)}')
         if isinstance(t, ast.Name):
@@ -353,6 +442,32 @@ class Interp:
         return states
 
     def stmt(self, s, st):
+        expr = s.test if isinstance(s, (ast.If, ast.Assert)) else s.value if isinstance(s, (ast.Assign, ast.AnnAssign, ast.Expr, ast.Return)) else None
+        if expr is None:
+            return self.stmt1(s, st)
+        out = []
+        for s0 in self.hoist(expr, st, top=isinstance(s, (ast.Assign, ast.Expr)) and isinstance(expr, ast.Call)):
+            out += self.stmt1(s, s0)
+        return out
+
+    @staticmethod
+    def is_test(e):
+        """An expression whose value is a truth value (comparison, negation, and/or of those): may be bound to a flag."""
+        if isinstance(e, ast.Compare):
+            return True
+        if isinstance(e, ast.UnaryOp) and isinstance(e.op, ast.Not):
+            return True
+        return isinstance(e, ast.BoolOp) and all(Interp.is_test(v) for v in e.values)
+
+    def flag(self, e, st):
+        """[(TRUE/FALSE, state)] for a test bound to a local: the test is decided where it is written, with everything it refines;
+        one state with an unknown flag when the test teaches nothing about signatures / parameters."""
+        outs = self.cond(e, st)
+        if all(s2.env == st.env and s2.classes == st.classes and s2.mismatch == st.mismatch and s2.explicit == st.explicit for _, s2 in outs):
+            return [(UNKNOWN, st)]
+        return [(TRUE if tv else FALSE, s2) for tv, s2 in outs]
+
+    def stmt1(self, s, st):
         if isinstance(s, ast.If):
             out = []
             for (tv, s2) in self.cond(s.test, st):
@@ -378,8 +493,8 @@ class Interp:
                     self.paths += 1
             return outs
         if isinstance(s, ast.Assign):
-            target = self.inlinable(s.value) if isinstance(s.value, ast.Call) else None
-            outcomes = self.inline(s.value, target, st) if target is not None else self.evs(s.value, st)
+            target = self.inlinable(s.value, st) if isinstance(s.value, ast.Call) else None
+            outcomes = self.inline(s.value, target, st) if target is not None else self.flag(s.value, st) if self.is_test(s.value) else self.evs(s.value, st)
             outs = []
             for val, st1 in outcomes:
                 st1 = st1.copy()
@@ -393,7 +508,7 @@ class Interp:
                 st.env[s.target.id] = self.ev(s.value, st)
             return [st]
         if isinstance(s, ast.Expr):
-            target = self.inlinable(s.value) if isinstance(s.value, ast.Call) else None
+            target = self.inlinable(s.value, st) if isinstance(s.value, ast.Call) else None
             if target is not None:
                 return [st1 for _, st1 in self.inline(s.value, target, st)]
             self.ev(s.value, st)
@@ -815,27 +930,41 @@ def check_summaries(ctx):
     # signatures create
     fc = m.func('gambit.cli.signatures.create')
     rep.functions.add(fc.qualname)
-    gmc = guard_map(fc.node)
-    rs = [s for s in stmts_in(fc.node.body) if isinstance(s, ast.Raise)]
-    ksd = [s for s in fc.node.body if isinstance(s, ast.Assign) and isinstance(s.value, ast.Call) and (m.resolve_call(fc, s.value) or '').endswith('kspec_from_params')]
-    rep.require(len(ksd) == 1, 'signatures create: kspec_from_params result not assigned')
-    KS = u(ksd[0].targets[0])
-    ex = [r for r in rs if ('true', 'db_params') in path_atoms(gmc[r]) and ('isnot', 'None', KS) in path_atoms(gmc[r])]
-    rep.add('P3', fc.site(ex[0] if ex else None), 'signatures create: explicit -k/--prefix together with --db-params is an error', len(ex) == 1 and m.resolve(fc.module, ex[0].exc.func) in CLICK_ERRORS,
-            expected='raise click.ClickException under db_params and kspec is not None', found=[(u(r)[:50], sorted(path_atoms(gmc[r]))) for r in rs][:3], stmt='create exclusivity')
-    asg = [s for s in stmts_in(fc.node.body) if isinstance(s, ast.Assign) and u(s.targets[0]) == KS]
-    dbk = [s for s in asg if ('true', 'db_params') in path_atoms(gmc[s]) and ('is', 'None', KS) in path_atoms(gmc[s])]
-    okd = len(dbk) == 1 and u(dbk[0].value).endswith('.signatures.kmerspec') and (u(dbk[0].value).startswith('ctx.obj.') or any(
-        isinstance(x, ast.Assign) and u(x.value) == 'ctx.obj' and u(dbk[0].value).startswith(u(x.targets[0]) + '.') for x in stmts_in(fc.node.body)))
-    rep.add('P3', fc.site(dbk[0] if dbk else None), "--db-params takes the parameters from the database's signatures", okd, expected='kspec = ctx.obj.signatures.kmerspec', found=[u(s) for s in dbk], stmt='create db params')
-    dfl = [s for s in asg if m.resolve(fc.module, s.value) == 'gambit.kmers.DEFAULT_KMERSPEC']
-    okdf = len(dfl) == 1 and path_atoms(gmc[dfl[0]]) >= {('false', 'db_params'), ('is', 'None', KS)}
-    rep.add('P3', fc.site(dfl[0] if dfl else None), 'the default parameters are used only when neither explicit parameters nor --db-params are given', okdf, expected='elif kspec is None: kspec = DEFAULT_KMERSPEC',
-            found=[(u(s), sorted(path_atoms(gmc[s]))) for s in dfl], stmt='create default')
-    calc = [c for c in calls_in(fc.node) if (m.resolve_call(fc, c) or '').endswith('calc_file_signatures')]
-    rep.add('P3', fc.site(calc[0] if calc else None), 'signatures are computed with the reconciled parameters', len(calc) == 1 and u(calc[0].args[0]) == KS, expected='calc_file_signatures(kspec, ...)', found=[u(c)[:60] for c in calc],
-            stmt='create compute')
+    # decided on the abstract paths of the command (same interpreter as P1): which parameters reach the computation for each combination
+    # of (--db-params given?, explicit -k/--prefix given?), however the tests are nested
+    flag = 'db_params'
+    rep.require(flag in fc.params(), 'signatures create: no db_params option parameter')
+    it = Interp(ctx, fc).run()
+    rep.require(bool(it.calcs), 'signatures create: no calc_file_signatures call is reached')
 
+    def dbp(st):
+        v = st.env.get(flag, UNKNOWN)
+        return True if v.kind == 'true' else False if v.kind == 'false' else None
+
+    def where(st):
+        return f'--db-params {"given" if dbp(st) else "not consulted" if dbp(st) is None else "absent"}, -k/--prefix {"given" if st.explicit else "absent"}'
+    c0 = it.calcs[0][0]
+    # 1. explicit parameters together with --db-params never reach the computation; that combination ends in a click error
+    bad = [(e, st) for (_, e, st) in it.calcs if st.explicit is not None and dbp(st) is not False]
+    excl = [(r, st) for (r, st) in it.raises if st.explicit is not None and dbp(st) is True]
+    notclick = [u(r)[:50] for (r, st) in excl if r.exc is None or m.resolve(fc.module, r.exc.func if isinstance(r.exc, ast.Call) else r.exc) not in CLICK_ERRORS]
+    rep.add('P3', fc.site(excl[0][0] if excl else c0), 'signatures create: explicit -k/--prefix together with --db-params is an error', not bad and bool(excl) and not notclick,
+            expected='raise click.ClickException under db_params and kspec is not None', found=[f'computes with {e} when {where(st)}' for e, st in bad][:3] or notclick or ('ok' if excl else 'no error exit for that combination'), stmt='create exclusivity')
+    # 2. --db-params: the database's parameters, and only then
+    with_db = [(e, st) for (_, e, st) in it.calcs if dbp(st) is True]
+    bad = [(e, st) for (e, st) in with_db if e != 'DB'] + [(e, st) for (_, e, st) in it.calcs if e == 'DB' and dbp(st) is not True]
+    rep.add('P3', fc.site(c0), "--db-params takes the parameters from the database's signatures", bool(with_db) and not bad, expected='kspec = ctx.obj.signatures.kmerspec under db_params',
+            found=[f'computes with {e} when {where(st)}' for e, st in bad][:3] or ('ok' if with_db else 'no path computes signatures under --db-params'), stmt='create db params')
+    # 3. the default only when nothing else was asked for
+    plain = [(e, st) for (_, e, st) in it.calcs if dbp(st) is False and st.explicit is None]
+    bad = [(e, st) for (e, st) in plain if e != 'DEFAULT'] + [(e, st) for (_, e, st) in it.calcs if e == 'DEFAULT' and not (dbp(st) is False and st.explicit is None)]
+    rep.add('P3', fc.site(c0), 'the default parameters are used only when neither explicit parameters nor --db-params are given', bool(plain) and not bad, expected='elif kspec is None: kspec = DEFAULT_KMERSPEC',
+            found=[f'computes with {e} when {where(st)}' for e, st in bad][:3] or ('ok' if plain else 'no path for that combination'), stmt='create default')
+    # 4. explicit parameters are the ones used
+    expl = [(e, st) for (_, e, st) in it.calcs if st.explicit is not None]
+    bad = [(e, st) for (e, st) in expl if e != st.explicit]
+    rep.add('P3', fc.site(c0), 'signatures are computed with the reconciled parameters', bool(expl) and not bad, expected='calc_file_signatures(kspec, ...)',
+            found=[f'computes with {e} when {where(st)}' for e, st in bad][:3] or ('ok' if expl else 'no path computes with explicit parameters'), stmt='create compute')
 
 def check(ctx):
     rep = ctx.rep
@@ -873,6 +1002,22 @@ _G3 = """		if ref_sigs is not None and ref_sigs.kmerspec != kspec:
 """
 _CHAIN = "\t\tif query_sigs is not None:\n\t\t\tkspec = query_sigs.kmerspec\n\t\telif ref_sigs is not None:\n\t\t\tkspec = ref_sigs.kmerspec\n\t\telse:\n\t\t\tkspec = DEFAULT_KMERSPEC\n"
 _KFP = "\tif prefix is None and k is None:\n\t\treturn DEFAULT_KMERSPEC if default else None\n\n\tif prefix is None or k is None:\n\t\traise click.ClickException('Must specify values for both -k and --prefix arguments.')\n"
+_HOOK = "################################################################################\n# Sequence file input\n"
+_HELPER = ("def check_kspecs(kspec1, source1, kspec2, source2):\n\tif kspec1 == kspec2:\n\t\treturn\n\n"
+           "\traise click.ClickException(f'K-mer search parameters {source1} do not match those of {source2}.')\n\n\n")
+_RECON = "\tif kspec is None:\n" + _G1 + _CHAIN + "\n\telse:\n" + _G2 + _G3
+_WALK = ("\texplicit = kspec is not None\n\n\tif query_sigs is not None:\n\t\tif not explicit:\n\t\t\tkspec = query_sigs.kmerspec\n\t\telif query_sigs.kmerspec != kspec:\n"
+         "\t\t\traise click.ClickException('K-mer search parameters from command line options do not match those of query signatures.')\n\n"
+         "\tif ref_sigs is not None:\n\t\tif kspec is None:\n\t\t\tkspec = ref_sigs.kmerspec\n\t\telif ref_sigs.kmerspec != kspec:\n\t\t\tif explicit:\n"
+         "\t\t\t\traise click.ClickException('K-mer search parameters from command line options do not match those of reference signatures.')\n"
+         "\t\t\traise click.ClickException('K-mer search parameters of query signatures do not match those of reference signatures.')\n\n"
+         "\tif kspec is None:\n\t\tkspec = DEFAULT_KMERSPEC\n")
+_CREATE = ("\tif db_params:\n\t\tif kspec is None:\n\t\t\tctxobj = ctx.obj  # type: common.CLIContext\n\t\t\tctxobj.require_signatures()\n\t\t\tkspec = ctx.obj.signatures.kmerspec\n"
+           "\t\telse:\n\t\t\traise click.ClickException('The -k/--prefix and --db-params options are mutually exclusive.')\n\n\telif kspec is None:\n\t\tkspec = DEFAULT_KMERSPEC\n")
+_CREATE2 = ("\tif db_params and kspec is not None:\n\t\traise click.ClickException('The -k/--prefix and --db-params options are mutually exclusive.')\n\n"
+            "\tif kspec is None:\n\t\tif db_params:\n\t\t\tctxobj = ctx.obj\n\t\t\tkspec = ctxobj.get_signatures().kmerspec\n\t\telse:\n\t\t\tkspec = DEFAULT_KMERSPEC\n")
+_GETDB = "\tdef get_database(self) -> ReferenceDatabase:\n"
+_GETSIG = "\tdef get_signatures(self):\n\t\tself.require_signatures()\n\t\treturn self.signatures\n\n"
 VARIANTS = [
     V('query -s guard removed (the repaired defect)', 'B', _Q, "\t\tif sigs.kmerspec != db.signatures.kmerspec:\n", "\t\tif False:\n", 'P1'),
     V('dist guard 1 removed', 'B', _D, _G1, "", 'P1'),
@@ -917,4 +1062,33 @@ VARIANTS = [
       "\t\traise click.ClickException(f'Invalid nucleotide codes in prefix: {prefix}')\n\telse:\n\t\treturn KmerSpec(k, prefix_bytes)\n"),
     V('invalid prefix swallowed: the handler falls back to the default parameters', 'B', _CM, "\t\traise click.ClickException(f'Invalid nucleotide codes in prefix: {prefix}')\n\n\treturn KmerSpec(k, prefix_bytes)\n",
       "\t\treturn DEFAULT_KMERSPEC\n\telse:\n\t\treturn KmerSpec(k, prefix_bytes)\n", 'P3'),
+    # ---- second refactoring round
+    V('E: one shared helper in cli/common.py compares two parameter sets (early return on equality), called under the None guards', 'E', _D, _G2 + _G3,
+      "\t\tif query_sigs is not None:\n\t\t\tcommon.check_kspecs(kspec, 'from command line options', query_sigs.kmerspec, 'query signatures')\n"
+      "\t\tif ref_sigs is not None:\n\t\t\tcommon.check_kspecs(kspec, 'from command line options', ref_sigs.kmerspec, 'reference signatures')\n", also=[(_CM, _HOOK, _HELPER + _HOOK)]),
+    V('shared helper: test inverted (returns on a mismatch, raises on equality)', 'B', _D, _G2 + _G3,
+      "\t\tif query_sigs is not None:\n\t\t\tcommon.check_kspecs(kspec, 'from command line options', query_sigs.kmerspec, 'query signatures')\n"
+      "\t\tif ref_sigs is not None:\n\t\t\tcommon.check_kspecs(kspec, 'from command line options', ref_sigs.kmerspec, 'reference signatures')\n", 'P',
+      also=[(_CM, _HOOK, _HELPER.replace("if kspec1 == kspec2:", "if kspec1 != kspec2:") + _HOOK)]),
+    V('shared helper: the reference call site compares the options with themselves', 'B', _D, _G2 + _G3,
+      "\t\tif query_sigs is not None:\n\t\t\tcommon.check_kspecs(kspec, 'from command line options', query_sigs.kmerspec, 'query signatures')\n"
+      "\t\tif ref_sigs is not None:\n\t\t\tcommon.check_kspecs(kspec, 'from command line options', kspec, 'reference signatures')\n", 'P', also=[(_CM, _HOOK, _HELPER + _HOOK)]),
+    V('E: None test of the options kept in a flag; each source checks itself or establishes the parameters; default last', 'E', _D, _RECON, _WALK),
+    V('flag with the wrong polarity: explicit options are overwritten by the query parameters unchecked', 'B', _D, _RECON, _WALK.replace("explicit = kspec is not None", "explicit = kspec is None"), 'P'),
+    V('walk over the sources: the reference branch establishes instead of checking', 'B', _D, _RECON, _WALK.replace("\t\tif kspec is None:\n\t\t\tkspec = ref_sigs.kmerspec\n\t\telif ref_sigs.kmerspec != kspec:\n", "\t\tif kspec is None or not explicit:\n\t\t\tkspec = ref_sigs.kmerspec\n\t\telif ref_sigs.kmerspec != kspec:\n"), 'P1'),
+    V('E: optional parameters compared before their None test', 'E', _D, _RECON,
+      "\tif query_sigs is not None and query_sigs.kmerspec != kspec and kspec is not None:\n\t\traise click.ClickException('K-mer search parameters from command line options do not match those of query signatures.')\n"
+      "\tif ref_sigs is not None and ref_sigs.kmerspec != kspec and kspec is not None:\n\t\traise click.ClickException('K-mer search parameters from command line options do not match those of reference signatures.')\n"
+      "\tif kspec is None:\n" + _G1 + _CHAIN),
+    V('optional parameters compared, then the None test the wrong way round', 'B', _D, _RECON,
+      "\tif query_sigs is not None and query_sigs.kmerspec != kspec and kspec is not None:\n\t\traise click.ClickException('K-mer search parameters from command line options do not match those of query signatures.')\n"
+      "\tif ref_sigs is not None and ref_sigs.kmerspec != kspec and kspec is None:\n\t\traise click.ClickException('K-mer search parameters from command line options do not match those of reference signatures.')\n"
+      "\tif kspec is None:\n" + _G1 + _CHAIN, 'P'),
+    V('E: database signatures through a method of the CLI context; create: exclusivity as a guard clause, then one if', 'E', _S, _CREATE, _CREATE2, also=[(_CM, _GETDB, _GETSIG + _GETDB),
+      (_D, "\t\tctxobj.require_signatures()\n\t\tref_sigs = ctxobj.signatures\n", "\t\tref_sigs = ctxobj.get_signatures()\n")]),
+    V('create restructured: the exclusivity guard is gone (explicit options silently win over --db-params)', 'B', _S, _CREATE,
+      _CREATE2.replace("\tif db_params and kspec is not None:\n\t\traise click.ClickException('The -k/--prefix and --db-params options are mutually exclusive.')\n\n", ""), 'P3', also=[(_CM, _GETDB, _GETSIG + _GETDB)]),
+    V('create restructured: the database parameters are taken whenever no options are given', 'B', _S, _CREATE, _CREATE2.replace("\t\tif db_params:\n", "\t\tif db_params or True:\n"), 'P3', also=[(_CM, _GETDB, _GETSIG + _GETDB)]),
+    V('dist: database signatures through a context method, but the explicit-option check skips them', 'B', _D, "\t\tctxobj.require_signatures()\n\t\tref_sigs = ctxobj.signatures\n", "\t\tref_sigs = ctxobj.get_signatures()\n", 'P',
+      also=[(_CM, _GETDB, _GETSIG + _GETDB), (_D, "\t\tif ref_sigs is not None and ref_sigs.kmerspec != kspec:", "\t\tif rs is not None and ref_sigs.kmerspec != kspec:")]),
 ]
